@@ -126,6 +126,81 @@ func (fx *FuncCtx) libraryModel(st *State, callee *types.Func, qn string, recv V
 		}
 	case "sort":
 		return fx.sortModel(st, callee, call)
+	case "bytes":
+		if callee.Name() == "NewReader" || callee.Name() == "NewBuffer" {
+			sv, ok := fx.eval(st, call.Args[0]).(SliceV)
+			if !ok {
+				return nil, false
+			}
+			// an opaque reader object that remembers the length of its input
+			ref := fx.allocRef(st, "reader")
+			fx.declFun("reader_len", []Sort{SInt}, SInt)
+			st.assume(Eq(app(SInt, "reader_len", ref), sv.Len))
+			t := sig.Results().At(0).Type()
+			if p, ok := t.Underlying().(*types.Pointer); ok {
+				return PtrV{Ref: ref, Elem: p.Elem()}, true
+			}
+			return nil, false
+		}
+	case "encoding/binary":
+		switch callee.Name() {
+		case "Read":
+			// binary.Read(r, order, data): the destination receives arbitrary field values
+			// (adversarial input) and the result is an arbitrary error
+			fx.eval(st, call.Args[0])
+			dst := fx.eval(st, call.Args[2])
+			if p, ok := dst.(PtrV); ok {
+				v, facts := fx.freshVal("decoded", p.Elem)
+				for _, f := range facts {
+					st.assume(f)
+				}
+				fx.storeHeap(st, p.prefix(), p.Ref, p.Elem, v)
+			} else if iv, ok := dst.(IfaceV); ok {
+				// boxed pointer: find the pointer through the box
+				if p2, ok := fx.unboxPtr(st, iv, call.Args[2]); ok {
+					v, facts := fx.freshVal("decoded", p2.Elem)
+					for _, f := range facts {
+						st.assume(f)
+					}
+					fx.storeHeap(st, p2.prefix(), p2.Ref, p2.Elem, v)
+				} else {
+					fx.unsupportedf("binary.Read into %s", fx.src(call.Args[2]))
+				}
+			} else {
+				fx.unsupportedf("binary.Read into %s", fx.src(call.Args[2]))
+			}
+			e, _ := fx.freshVal("read_err", sig.Results().At(0).Type())
+			return e, true
+		case "Size":
+			r := fx.freshConst("binsize", SInt)
+			st.assume(Ge(r, IntLit(-1)))
+			return r, true
+		case "Uint64", "Uint32", "Uint16":
+			// methods of littleEndian / bigEndian
+			sv, ok := fx.eval(st, call.Args[0]).(SliceV)
+			if !ok {
+				return nil, false
+			}
+			w := map[string]int64{"Uint64": 8, "Uint32": 4, "Uint16": 2}[callee.Name()]
+			fx.oblige(st, "idx", Ge(sv.Len, IntLit(w)), call, "")
+			fn := "bin_" + callee.Name()
+			fx.declFun(fn, []Sort{fx.memSort(sv.Elem), SInt, SInt}, SInt)
+			m := fx.heapGet(st, memName(sv.Elem), fx.memSort(sv.Elem))
+			r := app(SInt, fn, m, sv.Rid, sv.Off)
+			st.assume(And(Ge(r, IntLit(0)), Lt(r, Pow2(int(8*w)))))
+			return r, true
+		case "PutUint64", "PutUint32", "PutUint16":
+			sv, ok := fx.eval(st, call.Args[0]).(SliceV)
+			if !ok {
+				return nil, false
+			}
+			fx.eval(st, call.Args[1])
+			w := map[string]int64{"PutUint64": 8, "PutUint32": 4, "PutUint16": 2}[callee.Name()]
+			fx.oblige(st, "idx", Ge(sv.Len, IntLit(w)), call, "")
+			fx.checkStoreRange(st, sv, IntLit(0), IntLit(w), call)
+			fx.havocRange(st, sv, IntLit(0), IntLit(w))
+			return TupleV{}, true
+		}
 	case "runtime":
 		if callee.Name() == "GOMAXPROCS" {
 			fx.eval(st, call.Args[0])
@@ -188,6 +263,30 @@ func (fx *FuncCtx) uninterpretedCall(st *State, name string, sig *types.Signatur
 
 func (fx *FuncCtx) sortModel(st *State, callee *types.Func, call *ast.CallExpr) (Val, bool) {
 	switch callee.Name() {
+	case "Float64sAreSorted", "IntsAreSorted":
+		sv, ok := fx.eval(st, call.Args[0]).(SliceV)
+		if !ok {
+			return nil, false
+		}
+		// result == forall i in [1,n): !less(x[i], x[i-1]) with sort's order
+		// (for floats: a < b, or a is NaN and b is not)
+		es := fx.elemSort(sv.Elem)
+		name := memName(sv.Elem)
+		m := fx.heapGet(st, name, fx.memSort(sv.Elem))
+		row := Select(m, sv.Rid, ArraySort(SInt, es))
+		q := fx.freshName("q_so")
+		a := Select(row, Add(sv.Off, Term{q, SInt}), es)
+		b := Select(row, Add(sv.Off, Sub(Term{q, SInt}, IntLit(1))), es)
+		var less Term
+		if es == SInt {
+			less = Lt(a, b)
+		} else {
+			lt := fx.floatOp(tokenLSS, a, b, es, call).(Term)
+			less = Or(lt, And(fx.mathIsNaN(a), Not(fx.mathIsNaN(b))))
+		}
+		res := fx.freshConst("sorted", SBool)
+		st.assume(Eq(res, Term{fmt.Sprintf("(forall ((%s Int)) (=> (and (<= 1 %s) (< %s %s)) (not %s)))", q, q, q, sv.Len.S, less.S), SBool}))
+		return res, true
 	case "Float64s", "Ints":
 		sv, ok := fx.eval(st, call.Args[0]).(SliceV)
 		if !ok {
@@ -219,4 +318,16 @@ func (fx *FuncCtx) sortModel(st *State, callee *types.Func, call *ast.CallExpr) 
 		return TupleV{}, true
 	}
 	return nil, false
+}
+
+// unboxPtr: the pointer stored in an interface value that was boxed from the
+// given expression (&x / pointer variable).
+func (fx *FuncCtx) unboxPtr(st *State, iv IfaceV, e ast.Expr) (PtrV, bool) {
+	t := fx.typeOf(e)
+	if p, ok := t.Underlying().(*types.Pointer); ok {
+		tname := smtName(types.TypeString(t, func(p *types.Package) string { return p.Name() }))
+		fx.declFun("unbox_"+tname, []Sort{SIfc}, SInt)
+		return PtrV{Ref: app(SInt, "unbox_"+tname, iv.T), Elem: p.Elem()}, true
+	}
+	return PtrV{}, false
 }
